@@ -1970,8 +1970,9 @@ class Class(Object):
         """
         try:
             return self.all_members["__init__"].parameters  # type: ignore[union-attr]
-        except (KeyError, AliasResolutionError, CyclicAliasError):
-            # No `__init__` method, or one that is an alias we cannot resolve.
+        except (KeyError, ValueError, AliasResolutionError, CyclicAliasError):
+            # No `__init__` method, or one that is an alias we cannot resolve
+            # (`ValueError`: the tree has no modules collection to resolve it with).
             return Parameters()
 
     @property
